@@ -244,7 +244,8 @@ pub fn literal_record(args: &[String]) {
                  // full scale behind `0.`, leading zeros, 28 significant digits in every position of the point
                  "0.1234567890123456789012345678", "0.0000000000000000000000000010", "00.0000000000000000000000000001", "0000000000000000000000000000001", "000000000000000000000000000000.5",
                  "1.234567890123456789012345678", "12345678901234.56789012345678", "0.9999999999999999999999999999", "0.0000000000000000000000000000", "0001234567890123456789012345678",
-                 "0.00000000000000000000000000001", "0.12345678901234567890123456789"];
+                 "0.00000000000000000000000000001", "0.12345678901234567890123456789",
+                 "9223372036854775807", "9223372036854775808", "9999999999999999999", "18446744073709551615", "18446744073709551616", "2147483648", "4294967296", "99999999999999999999"];
     for k in 0..n {
         let text: String = if (k as usize) < fixed.len() {
             fixed[k as usize].to_string()
